@@ -35,7 +35,7 @@ man = {
     'version': 1,
     'setup_cmd': 'sh bin/setup',
     'hooks': {'guard': 'W2C2_VERIF', 'enable': 'checks compile /repo sources with -DW2C2_VERIF=1 (cbmc and native scratch builds); the normal build never defines it',
-              'baseline_off_cmd': 'sh bin/baseline_off', 'source_commits': [], 'add_only': True},
+              'baseline_off_cmd': 'sh bin/baseline_off', 'source_commits': ['78a4416'], 'add_only': True},
     'engines': [{'name': 'cbmc-portfolio', 'path': 'lib/core.py', 'serves_properties': [c['property_id'] for c in checks],
                  'kind_free_text': 'CBMC 6.11 bounded symbolic execution of real C sources and of C emitted by the real translator; back ends MiniSat/CaDiCaL, kissat, z3, cvc5 run as a portfolio; reachability witnesses; native replay of counterexamples'}],
     'checks': checks,
